@@ -20,6 +20,7 @@ CONFIG = {
     },
     "C04": {
         "pkg": "c04",
+        "regress": "^TestRegress",
         "legs": [
             {"run": "^TestPinset$", "quick": (600, 16), "thorough": (20000, 16)},
         ],
@@ -31,6 +32,38 @@ CONFIG = {
             "the update source (pin-update) is not treated as an option whose removal must be stored: PinOptions.Equals documents that it is deliberately ignored",
             "'identical options' is only asserted with whole-second expiry (the stored form truncates)",
             "unpinning a shard or cluster-DAG entry directly, and unpinning a meta entry whose cluster DAG is missing, are not specified by the statement: refusal-without-change is required for the former, the latter is not judged",
+        ],
+    },
+    "C09": {
+        "pkg": "c09",
+        "regress": "^TestRegress",
+        "legs": [
+            {"run": "^TestStoreChecker$", "quick": (4000, 8), "thorough": (100000, 12)},
+            {"run": "^TestMonitorLatest$", "quick": (4000, 2), "thorough": (100000, 2)},
+            {"run": "^TestCadence$", "quick": (3, 4), "thorough": (40, 8)},
+        ],
+        "floors": {"store-checker": {"nontrivial": 1000, "alerted": 2000, "forgotten": 1000, "window-wrap": 500}, "cadence": {"nontrivial": 8}},
+        "assumptions": [
+            QUIC,
+            "expiry instants are 1 h in the past or future, never near now",
+            "with 6 or more samples in a window the accrual (phi) detector decides, which depends on arrival times: for those pairs only 'never alerted while unexpired' and 'at most one alert per check' are asserted",
+            "Store.RemovePeer (no production caller) is only exercised on pairs without alert history",
+            "cadence: at most one publish error in a row is injected, and none for the ping (its TTL of 2 intervals tolerates no lost publication by design); an apparent violation must reproduce 3 times in a row",
+        ],
+    },
+    "C10": {
+        "pkg": "c10",
+        "regress": "^TestRegress",
+        "legs": [
+            {"run": "^TestRehome$", "quick": (500, 16), "thorough": (20000, 16), "timeout_is_violation": False},
+        ],
+        "floors": {"rehome": {"nontrivial": 500, "under-replicated": 1000, "expired-pin": 300, "mode:remove": 500}},
+        "assumptions": [
+            QUIC,
+            "every survivor evaluates the alert from the same initial pinset (the harness restores it between instances): this is the statement's 'members agree' proviso",
+            "'exactly one' is asserted only when no instance is a follower or has re-pinning disabled; otherwise 'at most one, and never a follower/disabled instance'",
+            "stored pins have at most max allocations (well-formed pinset)",
+            "metrics and the peerset come from harness fakes behind the PeerMonitor and Consensus interfaces",
         ],
     },
     "C08": {
